@@ -43,10 +43,15 @@ def build_harness():
         os.makedirs(HARNESS, exist_ok=True)
         subprocess.check_call(['rsync', '-a', '--delete', '--exclude', '/pdverif', '--exclude', '/go.mod', '--exclude', '/go.sum',
                                os.path.join(VERIF, 'harness') + '/', HARNESS + '/'])
-    shutil.copyfile(os.path.join(REPO, 'go.sum'), os.path.join(HARNESS, 'go.sum'))
-    # go.mod is regenerated so that the replace directive always points at the repo in use
+    # go.mod is regenerated so that the replace directive always points at the repo in use; both files are replaced
+    # atomically and only when they differ, so that checks started at the same moment do not read a half-written file
     tmpl = open(os.path.join(HARNESS, 'go.mod.tmpl')).read()
-    open(os.path.join(HARNESS, 'go.mod'), 'w').write(tmpl.replace('@REPO@', REPO))
+    for name, content in (('go.sum', open(os.path.join(REPO, 'go.sum')).read()), ('go.mod', tmpl.replace('@REPO@', REPO))):
+        dst = os.path.join(HARNESS, name)
+        if not os.path.exists(dst) or open(dst).read() != content:
+            tmp = '%s.%d.tmp' % (dst, os.getpid())
+            open(tmp, 'w').write(content)
+            os.replace(tmp, dst)
     r = subprocess.run(['go', 'build', '-tags', 'verif', '-o', BIN, './cmd/pdverif'], cwd=HARNESS,
                        env=goenv(), stdout=subprocess.PIPE, stderr=subprocess.STDOUT, text=True)
     if r.returncode != 0:
